@@ -89,6 +89,7 @@ def decodeGlb (b : Bytes) : Except GlbErr (Bytes × List Bytes) :=
   let length := de32 ((b.drop 8).take 4)
   let cl := de32 ((b.drop 12).take 4)
   if de32 ((b.drop 16).take 4) ≠ magicJson then .error .noJson else
+  if (b.drop 20).length < cl then .error .shortChunk else      -- "JSON chunk is longer than the file!"
   let json := (b.drop 20).take cl
   let rest := b.drop (20 + cl)
   match binChunks rest.length rest 0 length with
